@@ -44,6 +44,7 @@ META = {
         "Pyoda.C07.iso_time_format_injective",
         "Pyoda.C07.iso_date_format_injective",
         "Pyoda.C07.iso_time_general_reformat",
+        "Pyoda.C07.iso_time_general_parsed_chars",
     ],
     "trusted_base": [
         "float step of _ValueCursor._parse_fraction (int(result * math.pow(10.0, scale - count))) is exact for at most 9 digits (products below 2^53); sampled by suite text.num",
@@ -652,6 +653,12 @@ def analyse(ty, text, cname=""):
             for x in e[1]:
                 for y in e[1]:
                     if len(y) > len(x) and y.lower().startswith(x.lower()) and (x + nxt[1]).lower().startswith(y.lower()[:len(x) + len(nxt[1])]):
+                        info.delimited = False
+        if e[0] == "text" and e[1] is not None and nxt is not None and nxt[0] in ("num", "optdotnum"):
+            # digits of the following field must not turn the formatted name into a longer table entry
+            for x in e[1]:
+                for y in e[1]:
+                    if len(y) > len(x) and y.lower().startswith(x.lower()) and y[len(x)].isdigit():
                         info.delimited = False
         if e[0] == "text" and e[1] is not None and nxt is not None and nxt[0] in ("text",) and nxt[1]:
             for x in e[1]:
@@ -1495,7 +1502,7 @@ def run_iso_correspondence(ctx, who):
         ctx.note("model", "skipped (PYODA_TEXT_NOMODEL=1)")
         return
     import c08
-    n = ctx.scale(3000, 200_000)
+    n = ctx.scale(3000, 100_000)
     ops = iso_fmt_ops(ctx, n)
     ctx.correspond("text.iso.fmt", ops, impl, oracle=oracle_text_op, neighbours=neighbours, driver="drv_text")
     # parse the texts the code produced, plus mutations
@@ -1586,7 +1593,7 @@ def custom_cases(ctx):
     types = ["time", "date", "datetime", "offset", "duration", "annual", "instant"]
     weights = [5, 5, 5, 2, 3, 1, 1]
     cnames = culture_names(ctx, 14)
-    npat = ctx.scale(800, 6000)
+    npat = ctx.scale(1200, 6000)
     ids = cal_ids()
     cases = [("date", 'yyyy"x"MM', "", "ISO", 1), ("date", "yyyy g", "", "Hebrew Civil", 2), ("date", "R", "", "Julian", 3),
              ("time", "ss'.'FF", "", "ISO", 2)]
